@@ -225,13 +225,13 @@ func Read(r *bufio.Reader, l *log.Logger) (Message, error) {
 		switch subtype {
 		case 0:
 			var ext extensionInfo
-			lr := io.LimitReader(r, int64(length-2))
-			decoder := bencode.NewDecoder(lr)
-			err = decoder.Decode(&ext)
+			data := make([]byte, length-2)
+			_, err := io.ReadFull(r, data)
 			if err != nil {
 				return nil, err
 			}
-			_, err = io.Copy(io.Discard, lr)
+			decoder := bencode.NewDecoder(bytes.NewReader(data))
+			err = decoder.Decode(&ext)
 			if err != nil {
 				return nil, err
 			}
@@ -258,13 +258,13 @@ func Read(r *bufio.Reader, l *log.Logger) (Message, error) {
 			return m, nil
 		case ExtPex:
 			var info pexInfo
-			lr := io.LimitReader(r, int64(length-2))
-			decoder := bencode.NewDecoder(lr)
-			err := decoder.Decode(&info)
+			data := make([]byte, length-2)
+			_, err := io.ReadFull(r, data)
 			if err != nil {
 				return nil, err
 			}
-			_, err = io.Copy(io.Discard, lr)
+			decoder := bencode.NewDecoder(bytes.NewReader(data))
+			err = decoder.Decode(&info)
 			if err != nil {
 				return nil, err
 			}
